@@ -3,8 +3,8 @@
 # offline, from files on disk only.
 set -e
 export GOFLAGS=-mod=mod GOPROXY=off GOSUMDB=off GOTOOLCHAIN=local
-cd /verif/harness
-mkdir -p /verif/bin /verif/evidence /verif/replays
-go build -o /verif/bin/verif ./cmd/verif
-/verif/bin/verif build
+DIR="$(cd "$(dirname "$0")" && pwd)"; export VERIF_DIR="$DIR"; cd "$DIR/harness"
+mkdir -p "$DIR/bin" "$DIR/evidence" "$DIR/replays"
+go build -o "$DIR"/bin/verif ./cmd/verif
+"$DIR"/bin/verif build
 echo setup ok
